@@ -1,4 +1,7 @@
 import PoseVerif.Model.Select
+import PoseVerif.Model.Helpers
+import PoseVerif.Proofs.PoseOps
+import PoseVerif.Proofs.C19Lemmas
 /-!
 # C11 — selecting, removing or hiding points by name affects exactly those points
 
@@ -120,5 +123,132 @@ theorem select_limbs_names (c : Comp) (idx : Nat) (pts : List String) (c' : Comp
   · rw [hpb, ← hib, List.getElem?_eq_getElem (List.idxOf_lt_length_of_mem hbmem), List.getElem_idxOf]
   · exact (List.getElem?_eq_some_iff.mp hpa).1
   · exact (List.getElem?_eq_some_iff.mp hpb).1
+
+/-! ### known-format helpers: only the named points change -/
+
+section helpers
+variable {S : Type}
+
+theorem getD_map_nil {α β : Type} (f : List α → List β) (hf : f [] = []) (l : List (List α)) (i : Nat) : (l.map f).getD i [] = f (l.getD i []) := by
+  simp only [List.getD_eq_getElem?_getD, List.getElem?_map]
+  cases l[i]? <;> simp [hf]
+
+theorem getD_mapIdx {α : Type} (g : Nat → α → α) (l : List α) (i : Nat) (d : α) (hd : g i d = d) : (l.mapIdx g).getD i d = g i (l.getD i d) := by
+  simp only [List.getD_eq_getElem?_getD, List.getElem?_mapIdx]
+  cases l[i]? <;> simp [hd]
+
+/-- **hiding changes only the points it names**: every other point keeps its coordinates, confidence and missing flags -/
+theorem hidePoints_other [Inhabited S] (sc : Scalar S) (ixs : List Nat) (b : PBody S) (f p n : Nat) (hn : n ∉ ixs) :
+    dataAt (hidePoints sc ixs b) f p n = dataAt b f p n ∧ confAt (hidePoints sc ixs b) f p n = confAt b f p n ∧ missAt (hidePoints sc ixs b) f p n = missAt b f p n := by
+  have hc : ixs.contains n = false := by simpa using hn
+  refine ⟨?_, ?_, ?_⟩
+  · unfold dataAt hidePoints
+    simp only []
+    rw [getD_map_nil _ (by simp), getD_map_nil _ (by simp), getD_mapIdx _ _ _ _ (by simp [hn])]
+    simp [hn]
+  · unfold confAt hidePoints
+    simp only []
+    rw [getD_map_nil _ (by simp), getD_map_nil _ (by simp), getD_mapIdx _ _ _ _ (by simp [hn])]
+    simp [hn]
+  · unfold missAt hidePoints
+    simp only []
+    rw [getD_map_nil _ (by simp), getD_map_nil _ (by simp), getD_mapIdx _ _ _ _ (by simp [hn])]
+    simp [hn]
+
+/-- … and the named points become zeros with confidence 0 (and are no longer flagged: a plain assignment clears numpy's mask) -/
+theorem hidePoints_hidden [Inhabited S] (sc : Scalar S) (hz : (default : S) = sc.zero) (ixs : List Nat) (b : PBody S) (f p n : Nat) (hn : n ∈ ixs) :
+    dataAt (hidePoints sc ixs b) f p n = (dataAt b f p n).map (fun _ => sc.zero) ∧
+    (f < b.conf.length → p < (b.conf.getD f []).length → n < ((b.conf.getD f []).getD p []).length → confAt (hidePoints sc ixs b) f p n = sc.zero) ∧
+    missAt (hidePoints sc ixs b) f p n = (missAt b f p n).map (fun _ => false) := by
+  have hc : ixs.contains n = true := by simpa using hn
+  refine ⟨?_, ?_, ?_⟩
+  · unfold dataAt hidePoints
+    simp only []
+    rw [getD_map_nil _ (by simp), getD_map_nil _ (by simp), getD_mapIdx _ _ _ _ (by simp)]
+    simp [hn]
+  · intro _ _ _
+    unfold confAt hidePoints
+    simp only []
+    rw [getD_map_nil _ (by simp), getD_map_nil _ (by simp), getD_mapIdx _ _ _ _ (by simp [hz])]
+    simp [hn]
+  · unfold missAt hidePoints
+    simp only []
+    rw [getD_map_nil _ (by simp), getD_map_nil _ (by simp), getD_mapIdx _ _ _ _ (by simp)]
+    simp [hn]
+
+/-- the points `pose_hide_legs` touches are exactly the header indexes of the listed names that exist -/
+theorem mem_namedIndexes (comps : List Comp) (pairs : List (String × String)) (n : Nat) :
+    n ∈ namedIndexes comps pairs ↔ ∃ cp ∈ pairs, pointIndex? comps cp.1 cp.2 = some n := by
+  simp [namedIndexes, List.mem_filterMap]
+
+
+
+/-- frames × people agree in extent (the third level may hold anything) -/
+abbrev Same2 {α β : Type} (a : List (List α)) (b : List (List β)) : Prop := F2 (fun (x : List α) (y : List β) => x.length = y.length) a b
+
+theorem zip2_getD {α : Type} [Inhabited S] (g : List α → List S → List α) (hg : g [] [] = []) (a : List (List (List α))) (c : A3 S) (hs : Same2 a c) (f p : Nat) :
+    ((List.zipWith (List.zipWith g) a c).getD f []).getD p [] = g ((a.getD f []).getD p []) ((c.getD f []).getD p []) := by
+  have h1 := getD_zipWith' (List.zipWith g) a c hs.length_eq f [] []
+  simp only [List.zipWith_nil_left] at h1
+  rw [h1]
+  have hs2 : (a.getD f []).length = (c.getD f []).length := hs.getD rfl f
+  have h2 := getD_zipWith' g (a.getD f []) (c.getD f []) hs2 p [] []
+  rw [hg] at h2
+  exact h2
+
+/-- **wrist correction changes only the body wrist**: every other point keeps its coordinates, confidence and missing flags -/
+theorem correctWrist_other [Inhabited S] (isZero : S → Bool) (hw bw : Nat) (b : PBody S) (hd : Same2 b.data b.conf) (hm : Same2 b.missing b.conf) (f p n : Nat) (hn : n ≠ bw) :
+    dataAt (correctWrist isZero hw bw b) f p n = dataAt b f p n ∧ confAt (correctWrist isZero hw bw b) f p n = confAt b f p n ∧
+    missAt (correctWrist isZero hw bw b) f p n = missAt b f p n := by
+  refine ⟨?_, ?_, ?_⟩
+  · unfold dataAt correctWrist
+    simp only []
+    rw [zip2_getD _ (by simp) _ _ hd, getD_mapIdx _ _ _ _ (by simp [hn])]
+    simp [hn]
+  · unfold confAt correctWrist
+    simp only []
+    rw [getD_map_nil _ (by simp), getD_map_nil _ (by simp), getD_mapIdx _ _ _ _ (by simp [hn])]
+    simp [hn]
+  · unfold missAt correctWrist
+    simp only []
+    rw [zip2_getD _ (by simp) _ _ hm, getD_mapIdx _ _ _ _ (by simp [hn])]
+    simp [hn]
+
+/-- … and the body wrist takes the hand wrist's coordinates, confidence and flags exactly where the hand wrist's confidence is not 0 -/
+theorem correctWrist_at [Inhabited S] (isZero : S → Bool) (hw bw : Nat) (b : PBody S) (hd : Same2 b.data b.conf) (hm : Same2 b.missing b.conf) (f p : Nat)
+    (hbd : bw < ((b.data.getD f []).getD p []).length) (hbc : bw < ((b.conf.getD f []).getD p []).length) (hbm : bw < ((b.missing.getD f []).getD p []).length) :
+    (isZero (confAt b f p hw) = true → dataAt (correctWrist isZero hw bw b) f p bw = dataAt b f p bw ∧ confAt (correctWrist isZero hw bw b) f p bw = confAt b f p bw ∧
+      missAt (correctWrist isZero hw bw b) f p bw = missAt b f p bw) ∧
+    (isZero (confAt b f p hw) = false → dataAt (correctWrist isZero hw bw b) f p bw = dataAt b f p hw ∧ confAt (correctWrist isZero hw bw b) f p bw = confAt b f p hw ∧
+      missAt (correctWrist isZero hw bw b) f p bw = missAt b f p hw) := by
+  have e1 : dataAt (correctWrist isZero hw bw b) f p bw = if isZero (confAt b f p hw) then dataAt b f p bw else dataAt b f p hw := by
+    unfold dataAt confAt correctWrist
+    simp only []
+    rw [zip2_getD _ (by simp) _ _ hd]
+    simp only [List.getD_eq_getElem?_getD] at hbd ⊢
+    simp only [List.getElem?_mapIdx, List.getElem?_eq_getElem hbd, Option.map_some, Option.getD_some, if_true]
+  have e2 : confAt (correctWrist isZero hw bw b) f p bw = if isZero (confAt b f p hw) then confAt b f p bw else confAt b f p hw := by
+    unfold confAt correctWrist
+    simp only []
+    rw [getD_map_nil _ (by simp), getD_map_nil _ (by simp)]
+    simp only [List.getD_eq_getElem?_getD] at hbc ⊢
+    simp only [List.getElem?_mapIdx, List.getElem?_eq_getElem hbc, Option.map_some, Option.getD_some, if_true]
+  have e3 : missAt (correctWrist isZero hw bw b) f p bw = if isZero (confAt b f p hw) then missAt b f p bw else missAt b f p hw := by
+    unfold missAt confAt correctWrist
+    simp only []
+    rw [zip2_getD _ (by simp) _ _ hm]
+    simp only [List.getD_eq_getElem?_getD] at hbm ⊢
+    simp only [List.getElem?_mapIdx, List.getElem?_eq_getElem hbm, Option.map_some, Option.getD_some, if_true]
+  constructor
+  · intro h; rw [e1, e2, e3]; simp [h]
+  · intro h; rw [e1, e2, e3]; simp [h]
+
+
+/-! non-vacuity: hide point 1 of a two-point body; correct the "body wrist" 0 from the "hand wrist" 1 -/
+def hbody : PBody Nat := ⟨25, [[[[1, 2], [3, 4]]]], [[[7, 9]]], [[[[false, false], [false, false]]]]⟩
+example : (hidePoints C19.natSc [1] hbody).data = [[[[1, 2], [0, 0]]]] ∧ (hidePoints C19.natSc [1] hbody).conf = [[[7, 0]]] := by decide
+example : (correctWrist (· == 0) 1 0 hbody).data = [[[[3, 4], [3, 4]]]] ∧ (correctWrist (· == 0) 1 0 hbody).conf = [[[9, 9]]] := by decide
+example : (correctWrist (· == 0) 1 0 { hbody with conf := [[[7, 0]]] }).data = hbody.data := by decide
+end helpers
 
 end PoseVerif.Props.C11
